@@ -18,10 +18,10 @@
 //!   start: S-ops (s c) go to the sender, R-ops (r l<i>) to the receiver, in the given order.
 //! offsets are sample indices 0..K-1 (sample size 8); the sender's free list starts as 0..K-1 and
 //! gets reclaimed / evicted offsets appended.
-//! return codes (R lines): reclaim: 0 = None, v+1 = Some(v), 1000+ = Err; try_send: 0 = Ok(None),
-//!   v+1 = Ok(Some(evicted v)), 1000 = ReceiveBufferFull, 1001 = ConnectionCorrupted, 1002 = other;
-//!   receive: 0 = None, v+1 = Some(v), 1000 = ReceiveWouldExceedMaxBorrowValue;
-//!   release: 0 = Ok, 1000 = RetrieveBufferFull.
+//! return codes (R lines): reclaim: 0 = None, v+1 = Some(v), 1002 = Err; try_send: 0 = Ok(None),
+//!   v+1 = Ok(Some(evicted v)), 1000 = ReceiveBufferFull, 1001 = ConnectionCorrupted, 1009 = other;
+//!   receive: 0 = None, v+1 = Some(v), 1003 = ReceiveWouldExceedMaxBorrowValue;
+//!   release: 0 = Ok, 1004 = RetrieveBufferFull.
 //! header: C <B> <M> <ovf> <K> <cq> <prologue> <program> <prologue return codes, `t:code` list or ->
 //!   cq = capacity of the completion queue as observed through the public API on a twin
 //!   connection built with the same parameters (number of releases accepted without any reclaim).
@@ -68,7 +68,8 @@ fn in_queue_file(a: &Access) -> bool {
     a.file.ends_with("spsc/index_queue.rs") || a.file.ends_with("spsc/safely_overflowing_index_queue.rs")
 }
 fn filter(a: &Access) -> u8 {
-    if in_queue_file(a) { return if a.kind != Kind::Cell && a.width == 8 { FILTER_GATE } else { FILTER_LOG }; }
+    if a.kind == Kind::Cell { return FILTER_LOG; }   // queue slots, borrow counter (the site of a cell access is the wrapper, cell.rs)
+    if in_queue_file(a) { return if a.width == 8 { FILTER_GATE } else { FILTER_LOG }; }
     if a.file.ends_with("zero_copy_connection/used_chunk_list.rs") || a.file.ends_with("zero_copy_connection/common.rs") { return FILTER_LOG; }
     FILTER_SKIP
 }
@@ -82,22 +83,24 @@ fn do_reclaim(x: &mut SenderSide) -> u64 {
     match x.s.reclaim(CH) {
         Ok(None) => 0,
         Ok(Some(p)) => { let v = idx_of(p); x.free.push(v as usize); v + 1 }
-        Err(_) => 1000,
+        Err(_) => 1002,
     }
 }
 fn sender_op(x: &mut SenderSide, op: Op, ret: &mut dyn FnMut(u64)) {
     match op {
         Op::Reclaim => { let c = do_reclaim(x); ret(c); }
         Op::Send => {
-            loop { let c = do_reclaim(x); ret(c); if c == 0 || c >= 1000 { break; } }
-            if !x.free.is_empty() {
+            let mut last;
+            loop { last = do_reclaim(x); ret(last); if last == 0 || last >= 1000 { break; } }
+            // a reclaim error aborts the macro-op (the model does the same; unreachable by c03_conn_no_corruption)
+            if last == 0 && !x.free.is_empty() {
                 let v = x.free.remove(0);
                 let c = match x.s.try_send(off(v), SAMPLE_SIZE, CH) {
                     Ok(None) => 0,
                     Ok(Some(p)) => { let e = idx_of(p); x.free.push(e as usize); e + 1 }
                     Err(ZeroCopySendError::ReceiveBufferFull) => { x.free.insert(0, v); 1000 }
                     Err(ZeroCopySendError::ConnectionCorrupted) => 1001,
-                    Err(_) => 1002,
+                    Err(_) => 1009,
                 };
                 ret(c);
             }
@@ -111,14 +114,14 @@ fn receiver_op(x: &mut ReceiverSide, op: Op, ret: &mut dyn FnMut(u64)) {
             let c = match x.r.receive(CH) {
                 Ok(None) => 0,
                 Ok(Some(p)) => { let v = idx_of(p); x.held.push(v as usize); v + 1 }
-                Err(_) => 1000,
+                Err(_) => 1003,
             };
             ret(c);
         }
         Op::Rel(i) => {
             if i < x.held.len() {
                 let v = x.held[i];
-                let c = match x.r.release(off(v), CH) { Ok(()) => { x.held.remove(i); 0 } Err(_) => 1000 };
+                let c = match x.r.release(off(v), CH) { Ok(()) => { x.held.remove(i); 0 } Err(_) => 1004 };
                 ret(c);
             }
         }
@@ -197,7 +200,7 @@ fn instantiate(case: &Case) -> (Instance, Vec<Body>) {
 fn final_obs(inst: &Instance) -> String {
     let mut toks: Vec<String> = Vec::new();
     let (s, r) = (inst.sh.snd.lock().unwrap().take(), inst.sh.rcv.lock().unwrap().take());
-    let (Some(mut s), Some(mut r)) = (s, r) else { return "dead".into(); };
+    let (Some(s), Some(mut r)) = (s, r) else { return "dead".into(); };
     toks.push(format!("b{}", r.r.borrow_count(CH)));
     toks.push(format!("h{}", r.held.iter().map(|v| v.to_string()).collect::<Vec<_>>().join(".")));
     loop { match s.s.reclaim(CH) { Ok(None) => break, Ok(Some(p)) => toks.push(format!("c{}", idx_of(p))), Err(_) => { toks.push("cE".into()); break; } } }
